@@ -1278,6 +1278,24 @@ def factor_out(e, bvars):
     dep = z3.simplify(dep)
     if z3.is_rational_value(dep):
         return z3.simplify(fi * dep), None
+    # canonical form of a monomial: numeric coefficient to the independent part, factors sorted by their text
+    if z3.is_mul(dep):
+        num = z3.RealVal(1)
+        fs_ = []
+        st = list(dep.children())
+        while st:
+            x = st.pop()
+            if z3.is_mul(x):
+                st.extend(x.children())
+            elif z3.is_rational_value(x):
+                num = num * x
+            else:
+                fs_.append(x)
+        fs_.sort(key=lambda x: x.sexpr())
+        dep = fs_[0]
+        for x in fs_[1:]:
+            dep = dep * x
+        fi = fi * num
     return z3.simplify(fi), dep
 
 
@@ -1366,44 +1384,67 @@ def make_sum(extents, summand):
     rng_b = And_(*[And_(bv >= 0, bv < zi(n)) for bv, n in zip(bvars, extents)])
 
     def nanflag(nan):
+        """non-finite iff some summand is: decided statically when possible, else a Boolean with a witness"""
         if nan is False:
             return False
         if not ovars and c.is_valid(zb(Implies_(rng_b, Not_(nan)))):
             return False
-        return mk(zb(nan), z3.BoolSort(), "n")
+        b = mk(zb(nan), z3.BoolSort(), "n")
+        key = ("sumnan", b.sexpr())
+        if key not in c.memo and not ovars:
+            c.memo[key] = True
+            w = tuple(c.fresh_int("wn") for _ in extents)
+
+            def nan_at(t):
+                c.numpy_mode += 1
+                try:
+                    return sym.isnan_(summand(t))
+                finally:
+                    c.numpy_mode -= 1
+            c.fact(z3.Implies(b, z3.And(*[z3.And(x >= 0, x < zi(n)) for x, n in zip(w, extents)], zb(nan_at(w)))))
+            add_qfact(extents, lambda m: Implies_(nan_at(m), b), "sum.nan")
+            ground(*w)
+        return b
+
+    def real_sum(expr, tag):
+        """sum of a real summand: expanded into monomials, each with its summation-independent coefficient pulled
+        out: sum_t (c1*m1(t) + c2*m2(t) + ...) = c1*SUM(m1) + c2*SUM(m2) + ..."""
+        e = z3.simplify(expr, som=True)
+        terms = list(e.children()) if z3.is_add(e) else [e]
+        acc = None
+        for t in terms:
+            coef, dep = factor_out(t, bvars)
+            if dep is None:
+                part = coef * z3.ToReal(zi(tot)) if not is_pyint(tot) else coef * z3.RealVal(tot)
+            else:
+                v = mk(dep, z3.RealSort(), tag)
+                if v.sexpr() not in sums:
+                    sums[v.sexpr()] = SumInfo(extents, _unit(dep), (v,))
+                part = coef * v
+            acc = part if acc is None else acc + part
+        return z3.simplify(acc)
+
+    def _unit(dep):
+        def f(t, dep=dep):
+            return F(False, z3.substitute(dep, *[(bv, zi(x)) for bv, x in zip(bvars, t)]))
+        return f
+    sums = c.memo.setdefault("sums", {})
+    if k in ("int", "bool"):
+        body = sym.b2i(body)
+        s = mk(zi(body), z3.IntSort(), "i")
+        sums[s.sexpr()] = SumInfo(extents, summand, (s,))
+        return s
     if k == "float":
         body = sym.toF(body)
         nan = nanflag(body.nan)
-        coef, dep = factor_out(body.v, bvars)
-        if dep is None:
-            return F(nan, coef * z3.ToReal(zi(tot)) if True else coef)
-        v = mk(dep, z3.RealSort(), "r")
-
-        def unit_summand(t, summand=summand, coef=coef):
-            x = sym.toF(summand(t))
-            return F(x.nan, x.v / coef)
-        sums[v.sexpr()] = SumInfo(extents, unit_summand, (v,))
-        return F(nan, z3.simplify(coef * v))
+        return F(nan, real_sum(body.v, "r"))
     body = sym.toC(body)
     nan = nanflag(body.nan)
-    cre, dre = factor_out(body.re, bvars)
-    cim, dim_ = factor_out(body.im, bvars)
-    if dre is not None and dim_ is not None and z3.simplify(cre).sexpr() == z3.simplify(cim).sexpr() \
-            and not z3.is_rational_value(z3.simplify(cre)):
-        re = mk(dre, z3.RealSort(), "re")
-        im = mk(dim_, z3.RealSort(), "im")
+    return C(nan, real_sum(body.re, "r"), real_sum(body.im, "r"))
 
-        def unit_summand(t, summand=summand, coef=cre):
-            x = sym.toC(summand(t))
-            return C(x.nan, x.re / coef, x.im / coef)
-        sums[re.sexpr()] = SumInfo(extents, unit_summand, (re, im))
-        sums[im.sexpr()] = SumInfo(extents, unit_summand, (re, im))
-        return C(nan, z3.simplify(cre * re), z3.simplify(cre * im))
-    re = mk(body.re, z3.RealSort(), "re")
-    im = mk(body.im, z3.RealSort(), "im")
-    sums[re.sexpr()] = SumInfo(extents, summand, (re, im))
-    sums[im.sexpr()] = SumInfo(extents, summand, (re, im))
-    return C(nan, re, im)
+
+def _unused_old_sum_tail():
+    body = None
 
 
 def sum_info(v):
@@ -1494,6 +1535,18 @@ def sum_(a, axis=None):
         return make_sum(red, summand)
     out = Arr(res_axes, cellfn, a.kind if a.kind != "bool" else "int")
     return out if out.ndim else out.cell(())
+
+
+def nansum(a, axis=None):
+    """np.nansum: non-finite entries count as zero"""
+    a = asarray(a)
+
+    def z(x):
+        if isinstance(x, C):
+            return C(False, z3.If(zb(x.nan), z3.RealVal(0), x.re), z3.If(zb(x.nan), z3.RealVal(0), x.im))
+        x = sym.toF(x)
+        return F(False, z3.If(zb(x.nan), z3.RealVal(0), x.v))
+    return sum_(elementwise(z, a, kind=a.kind if a.kind in ("float", "complex") else "float"), axis)
 
 
 def mean(a, axis=None):
